@@ -12,6 +12,11 @@ def gen_verifier(tier, rng):
         d = bytes(igz.corpus(rng, cls, n))
         c = zlib.compressobj(6, zlib.DEFLATED, -15); raw = c.compress(d) + c.flush()
         parents.append((cls, raw, d))
+    for rep in range(3):       # deflate data ending exactly on a byte boundary (the trailer then starts inside the decoder's bit buffer differently)
+        raw = defgen.aligned_fixed_stream(rng, k8=rep * 3 + 2)
+        parents.append(("aligned-end", raw, zlib.decompressobj(-15).decompress(raw)))
+    for name, d in adler_edge_inputs(rng)[:5]:
+        d = bytes(d); c = zlib.compressobj(6, zlib.DEFLATED, -15); parents.append((name, c.compress(d) + c.flush(), d))
     big = bytes(igz.corpus(rng, "text", 9000)); c = zlib.compressobj(6, zlib.DEFLATED, -15); bigraw = c.compress(big) + c.flush()
     for cls, raw, plain in parents:
         for mode in (1, 3, 5, 6):
@@ -24,8 +29,8 @@ def gen_verifier(tier, rng):
             for a, b in ((1, 1 << 16), (1 << 16, 1), (1, 1), (1 << 16, len(plain)), (1 << 16, max(1, len(plain) - 1))):
                 scns.append(igz.scenario(len(scns), "inflate", list(st), wrap=mode, tail_ai=a, tail_ao=b, cap=100000, mem=k % 3, meta={"family": "valid-chunked"})); k += 1
             scns.append(igz.scenario(len(scns), "inflate_stateless", list(st), wrap=mode, calls=[[n, 1 << 16, 0, 0]], meta={"family": "valid-oneshot"}))
-            # every single-bit flip at every offset (header, body, trailer)
-            for byte in range(n):
+            # every single-bit flip at every offset (header, body, trailer); for the checksum-boundary parents only the trailer bits
+            for byte in (range(n) if not cls.startswith("adler") else range(n - tl, n)):
                 for bit in range(8):
                     if tier == "quick" and byte < n - tl and (byte * 8 + bit + mode) % 5: continue
                     m = bytearray(st); m[byte] ^= 1 << bit
@@ -34,7 +39,7 @@ def gen_verifier(tier, rng):
                                                  cap=100000, mem=k % 3, meta={"family": "bitflip-" + ("trailer" if byte >= n - tl else "body")})); k += 1
             # every truncation
             for cut in range(n):
-                if tier == "quick" and cut < n - tl - 2 and cut % 3: continue
+                if (tier == "quick" or cls.startswith("adler")) and cut < n - tl - 2 and cut % (3 if not cls.startswith("adler") else 41): continue
                 scns.append(igz.scenario(len(scns), "inflate", list(st[:cut]), wrap=mode, tail_ai=[1, 1 << 16][cut % 2], tail_ao=1 << 16, cap=100000, meta={"family": "truncation"}))
     # one 4 KB-class stream: a flip at every byte offset
     for mode in (1, 3):
@@ -43,6 +48,41 @@ def gen_verifier(tier, rng):
             m = bytearray(st); m[byte] ^= 1 << (byte % 8)
             scns.append(igz.scenario(len(scns), "inflate", list(m), wrap=mode, tail_ai=[1 << 16, 100][byte % 2], tail_ao=[1 << 16, 333][byte % 2], cap=100000, meta={"family": "bitflip-large"}))
     return scns
+
+def adler_edge_inputs(rng):
+    """inputs whose Adler-32 state hits the boundary values of its two halves (A or B equal to 0 or 65520): the places where
+    a conversion between the RFC form and the library's internal B|(A-1) form can go wrong. Built by construction / search;
+    the spec (Checksums.tla) computes the real checksum of each."""
+    M = 65521
+    out = []
+    def ab(d):
+        a, b = 1, 0
+        for x in d: a = (a + x) % M; b = (b + a) % M
+        return a, b
+    for target_a in (0, 65520, 1):
+        d = [rng.randrange(256) for _ in range(rng.randrange(260, 400))]
+        a, _ = ab(d)
+        need = (target_a - a) % M
+        while need > 0:
+            x = min(255, need); d.append(x); need -= x
+        out.append(("adler-A=%d" % target_a, d))
+    for target_b in (0, 65520):
+        for _ in range(200):
+            d = [rng.randrange(256) for _ in range(rng.randrange(300, 500))]
+            a, b = ab(d)
+            # append two bytes x, y: b'' = b + 2a + 2x + y (mod M)
+            found = None
+            for x in range(256):
+                y = (target_b - b - 2 * a - 2 * x) % M
+                if y < 256: found = (x, y); break
+            if found:
+                out.append(("adler-B=%d" % target_b, d + list(found))); break
+    big = [255] * 70000
+    a, _ = ab(big); need = (0 - a) % M
+    while need > 0:
+        x = min(255, need); big.append(x); need -= x
+    out.append(("adler-A=0-large", big))
+    return out
 
 def gen_producer(tier, rng):
     """producer side: every chunking of a few inputs through the compressor; the trailer is judged by TraceDeflate (Unwrap)"""
@@ -58,6 +98,12 @@ def gen_producer(tier, rng):
                     k += 1
                     scns.append(igz.scenario(len(scns), "deflate", inp, level=level, wrap=wrap, lbuf=3, tail_ai=chunk, tail_ao=ao, cap=400000, mem=k % 3, meta={"family": "producer"}))
                 scns.append(igz.scenario(len(scns), "deflate_stateless", inp, level=level, wrap=wrap, lbuf=3, calls=[[n, n * 2 + 500, 0, 1]], meta={"family": "producer-oneshot"}))
+    for name, inp in adler_edge_inputs(rng):
+        n = len(inp)
+        for level in range(4):
+            for wrap in (3, 4, 1):
+                scns.append(igz.scenario(len(scns), "deflate", inp, level=level, wrap=wrap, lbuf=3, tail_ai=[1 << 20, 100][level % 2], tail_ao=1 << 20, cap=100000, meta={"family": "producer-" + name}))
+                scns.append(igz.scenario(len(scns), "deflate_stateless", inp, level=level, wrap=wrap, lbuf=3, calls=[[n, n * 2 + 500, 0, 1]], meta={"family": "producer-oneshot-" + name}))
     return scns
 
 def run(tier, replay=None):
